@@ -190,9 +190,11 @@ class _LinkInterp:
     """Executes the straight-line / if-else statements that link layers (attribute stores, name bindings, `is None` / `== k`
     tests, constructor and .copy() calls creating fresh layers) on a small heap."""
 
-    def __init__(self):
+    def __init__(self, methods=None, depth=0):
         self.env = {}
         self.fresh = []
+        self.methods = methods or {}      # methods of the owner's class: a helper that does the linking is executed too
+        self.depth = depth
 
     def new(self, label):
         o = _Obj(label)
@@ -268,6 +270,17 @@ class _LinkInterp:
                 pass
             elif isinstance(st, ast.Return):
                 return
+            elif isinstance(st, ast.Expr) and isinstance(st.value, ast.Call) and isinstance(st.value.func, ast.Attribute) \
+                    and st.value.func.attr in self.methods and self.depth < 2 and not st.value.keywords:
+                callee = self.methods[st.value.func.attr]
+                recv = self.value(st.value.func.value)
+                args = [self.value(a) for a in st.value.args]
+                if len(args) + 1 != len(callee.posparams):
+                    raise Undecidable('call %s' % norm(st.value)[:40])
+                sub = _LinkInterp(self.methods, self.depth + 1)
+                sub.fresh = self.fresh
+                sub.env = dict(zip(callee.posparams, [recv] + args))
+                sub.run([b for b in callee.node.body])
             elif isinstance(st, ast.Expr) and isinstance(st.value, ast.Constant):
                 pass
             else:
@@ -304,7 +317,7 @@ def check_linked_list(run, f, rule='R10.link'):
             continue
         done.add(key)
         n += 1
-        it = _LinkInterp()
+        it = _LinkInterp(dict(f.cls.methods) if f.cls is not None else {})
         owner = _Obj('owner')
         if not isinstance(tgt.value, ast.Name):
             run.undecided(rule, f, st, 'owner of the chain is not a plain name')
